@@ -143,6 +143,120 @@ theorem refused_frame_leaves_nothing (i : Inc) (f : Frame) (hm : f.more = true) 
 example : (let i : Inc := { id := some 1, tag := some [1], fmt := some 0, settled := none, buf := [[7]] }
     ({ i with buf := i.buf ++ [[9, 9]] } : Inc).buf.flatten) = [7, 9, 9] := by decide
 
+/-! ### the `resume` flag -/
+
+theorem source_resume_shape : resumeShape = true := by decide
+
+/-- every tag in sight is the delivery's or absent -/
+def TagInv (tag : Bytes) (st : Option Inc) : Prop := ∀ i, st = some i → i.tag = none ∨ i.tag = some tag
+
+theorem stepR_eq_step (tag : Bytes) (st : Option Inc) (f : Frame) (r : Bool)
+    (hs : TagInv tag st) (hf : f.tag = none ∨ f.tag = some tag) : stepR st f r = step st f := by
+  unfold stepR
+  split
+  · rcases hf with h | h
+    · simp [h]
+    · cases st with
+      | none => simp
+      | some i =>
+        rcases hs i rfl with h' | h' <;> simp [h, h']
+  · rfl
+
+theorem orAssign_tag (tag : Bytes) (a b : Option Bytes) (o : Option Bytes)
+    (ha : a = none ∨ a = some tag) (hb : b = none ∨ b = some tag) (h : orAssign a b = some o) :
+    o = none ∨ o = some tag := by
+  rcases ha with rfl | rfl <;> rcases hb with rfl | rfl <;> simp [orAssign] at h <;> simp [← h]
+
+theorem merge_tag (tag : Bytes) (i i' : Inc) (f : Frame) (hi : i.tag = none ∨ i.tag = some tag)
+    (hf : f.tag = none ∨ f.tag = some tag) (h : merge i f = some i') : i'.tag = none ∨ i'.tag = some tag := by
+  unfold merge at h
+  cases h1 : orAssign i.id f.id with
+  | none => simp [h1, bind, Option.bind] at h
+  | some id =>
+    cases h2 : orAssign i.tag f.tag with
+    | none => simp [h1, h2, bind, Option.bind] at h
+    | some tg =>
+      cases h3 : orAssign i.fmt f.fmt with
+      | none => simp [h1, h2, h3, bind, Option.bind] at h
+      | some fm =>
+        simp [h1, h2, h3, bind, Option.bind, pure] at h
+        rw [← h]
+        exact orAssign_tag tag _ _ _ hi hf h2
+
+theorem step_tagInv (tag : Bytes) (st : Option Inc) (f : Frame) (hs : TagInv tag st)
+    (hf : f.tag = none ∨ f.tag = some tag) : TagInv tag (step st f).1 := by
+  intro j hj
+  by_cases ha : f.aborted = true
+  · simp [step, source_abort_first, ha] at hj
+  · by_cases hm : f.more = true
+    · cases st with
+      | none => simp [step, source_abort_first, ha, hm] at hj; rw [← hj]; exact hf
+      | some i =>
+        cases hmg : merge i f with
+        | none =>
+          simp [step, source_abort_first, source_checked_before_kept, ha, hm, hmg] at hj
+          rw [← hj]; exact hs i rfl
+        | some i' =>
+          simp [step, source_abort_first, ha, hm, hmg] at hj
+          rw [← hj]; exact merge_tag tag i i' f (hs i rfl) hf hmg
+    · cases st with
+      | none => simp [step, source_abort_first, ha, hm] at hj
+      | some i => cases hmg : merge i f <;> simp [step, source_abort_first, ha, hm, hmg] at hj
+
+/-- **resume_flag_immaterial (C10).** On the frames of one delivery — the delivery-tag repeated or omitted —
+    whichever of them carry the `resume` flag (a delivery transferred again after the link was resumed), what
+    the application is handed is what it is handed without the flag: nothing before the last frame, then the
+    whole message once (`reasm_once`). -/
+theorem resume_flag_immaterial (tag : Bytes) : ∀ (fs : List (Frame × Bool)) (st : Option Inc),
+    TagInv tag st → (∀ p ∈ fs, p.1.tag = none ∨ p.1.tag = some tag) →
+    runR st fs = run st (fs.map (·.1))
+  | [], _, _, _ => rfl
+  | (f, r) :: fs, st, hs, hf => by
+    have h1 := stepR_eq_step tag st f r hs (hf (f, r) (by simp))
+    have h2 := resume_flag_immaterial tag fs (step st f).1 (step_tagInv tag st f hs (hf (f, r) (by simp)))
+      (fun p hp => hf p (by simp [hp]))
+    simp [runR, run, h1, h2]
+
+/-- `reasm_once` for a delivery that is transferred again with `resume` on any of its frames -/
+theorem reasm_once_resumed (id : Nat) (tag : Bytes) (fmt : Option Nat) (first : Frame) (mids : List Frame)
+    (last : Frame) (flags : List Bool)
+    (hf : first.id = some id ∧ first.tag = some tag ∧ first.fmt = fmt ∧ first.more = true ∧
+          first.aborted = false)
+    (hm : ∀ f ∈ mids, Agrees id tag fmt f ∧ f.more = true)
+    (hl : Agrees id tag fmt last ∧ last.more = false)
+    (hlen : flags.length = (first :: mids ++ [last]).length) :
+    ∃ settled, runR none ((first :: mids ++ [last]).zip flags) =
+      (none, Out.nothing :: mids.map (fun _ => Out.nothing) ++
+        [.delivery id tag fmt settled (first.payload ++ (mids.map (·.payload)).flatten ++ last.payload)]) := by
+  obtain ⟨settled, h⟩ := reasm_once id tag fmt first mids last hf hm hl
+  refine ⟨settled, ?_⟩
+  have hz : ((first :: mids ++ [last]).zip flags).map (·.1) = first :: mids ++ [last] := by
+    rw [List.map_fst_zip]; omega
+  rw [resume_flag_immaterial tag _ none (fun i hi => by cases hi), hz, h]
+  intro p hp
+  have hp1 : p.1 ∈ first :: mids ++ [last] := by
+    have := List.mem_map_of_mem (f := Prod.fst) hp
+    rwa [hz] at this
+  simp only [List.cons_append, List.mem_cons, List.mem_append, List.mem_nil_iff, or_false] at hp1
+  rcases hp1 with h1 | h1 | h1
+  · rw [h1]; exact Or.inr hf.2.1
+  · exact (hm _ h1).1.2.1
+  · rw [h1]; exact hl.1.2.1
+
+/-- what the other arm does: a last frame with `resume` that names another delivery-tag than the delivery in
+    progress is a delivery of its own, and the delivery in progress stays exactly as it was -/
+theorem resumed_other_delivery (i : Inc) (f : Frame) (t u : Bytes) (hi : i.tag = some t) (hf : f.tag = some u)
+    (hne : u ≠ t) (hm : f.more = false) (ha : f.aborted = false) :
+    stepR (some i) f true = (some i, deliver f.id f.tag f.fmt f.settled f.payload) := by
+  simp [stepR, source_resume_shape, hm, ha, hi, hf, hne]
+
+/-- the shape a seeded change gave that function (a delivery of its own whenever the tags are not both known
+    and equal) hands the last frame of a resumed delivery over alone when it leaves the tag out -/
+example : (let i : Inc := { id := some 1, tag := some [1], fmt := some 0, settled := none, buf := [[7]] }
+    let f : Frame := ⟨none, none, none, none, false, false, [9]⟩
+    (stepR (some i) f true).2 = .delivery 1 [1] (some 0) false [7, 9] ∧
+    deliver f.id f.tag f.fmt f.settled f.payload = .missingIdOrTag) := by decide
+
 /-! ### non-vacuity -/
 example : (run none [⟨some 7, some [1], some 0, none, true, false, [1, 2]⟩, ⟨some 8, none, none, none, true, false, [66]⟩,
     ⟨some 7, none, none, none, false, false, [3]⟩]).2 =
